@@ -104,6 +104,57 @@ class FakeTransport(asyncio.Transport):
         return self.closed
 
 
+class CallTimeout(BaseException):
+    """A call into the implementation did not return in time. A BaseException on purpose: the
+    implementation's own `except Exception` clauses must not be able to swallow it (common.Timeout
+    is an Exception and is answered with a 500 by HAPServerHandler.dispatch)."""
+
+
+class call_limit:
+    """`with call_limit(5): proto.data_received(...)` -> CallTimeout if the call does not return
+    (SIGALRM, main thread only), so that a non-terminating implementation is a finding, not a hang."""
+
+    def __init__(self, seconds: float):
+        self.seconds = seconds
+
+    def _raise(self, *a):
+        raise CallTimeout()
+
+    def __enter__(self):
+        import signal
+
+        self.old = signal.signal(signal.SIGALRM, self._raise)
+        signal.setitimer(signal.ITIMER_REAL, self.seconds)
+
+    def __exit__(self, *a):
+        import signal
+
+        signal.setitimer(signal.ITIMER_REAL, 0)
+        signal.signal(signal.SIGALRM, self.old)
+        return False
+
+
+CALL_LIMIT = [5.0]  # seconds for one callback of the implementation
+HUNG = [0]  # calls that did not return in this run (after 2 the sweeps stop: the budget is for finding, not waiting)
+
+
+def hung_budget_exhausted() -> bool:
+    return HUNG[0] >= 2
+
+
+def guarded(fn, *args) -> Tuple[Optional[str], bool]:
+    """Call fn(*args) under the time limit -> (escaped exception class or None, hung?)."""
+    try:
+        with call_limit(CALL_LIMIT[0]):
+            fn(*args)
+    except CallTimeout:
+        HUNG[0] += 1
+        return None, True
+    except Exception as ex:  # noqa: BLE001
+        return type(ex).__name__, False
+    return None, False
+
+
 class VLoop(asyncio.SelectorEventLoop):
     """Event loop on a virtual clock: timers (event coalescing, timeouts) fire when `advance` moves
     the clock past them, never by waiting."""
@@ -142,6 +193,15 @@ class World:
         # gated: a snapshot, once started, stays in flight until open_gate()
         self.gated, self.gate_open = gated, not gated
         self._agate, self._tgate = asyncio.Event(), threading.Event()
+        self.snapshot_fail = False  # the camera raises instead of returning an image
+        self.hung: Optional[str] = None  # a loop step did not return
+        # everything the loop runs on behalf of a connection (done-callbacks, timers, tasks): what it
+        # reports to its exception handler is recorded as (exception class, message)
+        self.loop_errors: List[Tuple[str, str]] = []
+        self.loop.set_exception_handler(
+            lambda _l, c: self.loop_errors.append((type(c.get("exception")).__name__ if c.get("exception") is not None else "-",
+                                                   str(c.get("message"))))
+        )
         asyncio.set_event_loop(self.loop)
         self.tmp = tempfile.mkdtemp(prefix="verif-c03-")
         self.snapshot_calls = 0
@@ -165,12 +225,16 @@ class World:
             world.snapshot_calls += 1
             if world.gated:
                 world._tgate.wait(30)
+            if world.snapshot_fail:
+                raise RuntimeError("camera failed")
             return CANARY_SNAPSHOT
 
         async def async_snapshot(_self, info):
             world.snapshot_calls += 1
             if world.gated:
                 await world._agate.wait()
+            if world.snapshot_fail:
+                raise RuntimeError("camera failed")
             return CANARY_SNAPSHOT
 
         def mk(name, aid, with_snapshot):
@@ -273,8 +337,13 @@ class World:
 
     def spin(self, n: int = 8):
         """Run what is ready (callbacks, task steps), without waiting for anything."""
-        for _ in range(n):
-            self.loop.run_until_complete(asyncio.sleep(0))
+        try:
+            with call_limit(CALL_LIMIT[0] * 2):
+                for _ in range(n):
+                    self.loop.run_until_complete(asyncio.sleep(0))
+        except CallTimeout:
+            HUNG[0] += 1
+            self.hung = "a loop step (callback / task of a connection)"
 
     def advance(self, dt: float):
         """Move the virtual clock and run the timers that became due."""
@@ -291,13 +360,18 @@ class World:
         if not self.gate_open:
             self.spin()  # a snapshot is deliberately in flight: do not wait for it
             return
-        for _ in range(40):
-            loop.run_until_complete(asyncio.sleep(0))
-            pending = [t for t in asyncio.all_tasks(loop) if not t.done()]
-            if not pending:
-                break
-            loop.run_until_complete(asyncio.wait(pending, timeout=5))
-        loop.run_until_complete(asyncio.sleep(0))
+        try:
+            with call_limit(30):
+                for _ in range(40):
+                    loop.run_until_complete(asyncio.sleep(0))
+                    pending = [t for t in asyncio.all_tasks(loop) if not t.done()]
+                    if not pending:
+                        break
+                    loop.run_until_complete(asyncio.wait(pending, timeout=5))
+                loop.run_until_complete(asyncio.sleep(0))
+        except CallTimeout:
+            HUNG[0] += 1
+            self.hung = "a loop step (callback / task of a connection)"
 
     def close(self):
         try:
@@ -324,16 +398,16 @@ class Conn:
     def send(self, raw: bytes, method: bytes = b"POST") -> Dict[str, Any]:
         """Feed one request, let delayed work finish, return what the peer saw."""
         before = len(self.t.out)
-        escaped = None
+        escaped, hung = None, False
         if not self.t.closed:
-            try:
-                self.p.data_received(raw)
-            except Exception as ex:  # noqa: BLE001  (C19's concern; recorded, C03 judges the effects)
-                escaped = type(ex).__name__
+            # an escaping exception is C19's concern (recorded; C03 judges the effects); a call that does
+            # not return is a request that is never answered
+            escaped, hung = guarded(self.p.data_received, raw)
         self.world.drain()
         written = b"".join(self.t.out[before:])
         resps, trailing = httpc.parse_responses(written, [method], eof=self.t.closed)
-        return {"written": written, "responses": resps, "trailing": trailing, "closed": self.t.closed, "escaped": escaped}
+        return {"written": written, "responses": resps, "trailing": trailing, "closed": self.t.closed, "escaped": escaped,
+                "hung": hung or bool(self.world.hung)}
 
     def request(self, method: bytes, target: bytes, body: bytes = b"") -> Dict[str, Any]:
         return self.send(httpc.http_request(method, target, body), method)
@@ -426,7 +500,10 @@ def valid_bodies(world: World, method: str, path: str) -> List[Tuple[bytes, byte
 
 
 def junk_bodies(rng, n: int) -> List[bytes]:
-    out = [b"", b"\x00", b"{", b"[]", b"null", b"\xff\xfe\xfd", b"{}" * 3, b"\x06\x01", bytes(range(256))]
+    out = [b"", b"\x00", b"{", b"[]", b"null", b"\xff\xfe\xfd", b"{}" * 3, b"\x06\x01", bytes(range(256)),
+           # TLV shapes: lone trailing tag byte, item cut inside its value, declared length past the end
+           b"\x06", b"\x06\x01\x01\x00", b"\x06\x01\x03\x05", b"\x00\x01\x00\x06\x01\x01\x03",
+           b"\x06\x01\x01\x03\xff\x01\x02", b"\x06\x01\x03\x05\x20" + b"\x99" * 7, b"\x06\x01\x01\x00\x01\x00\x06"]
     while len(out) < n:
         k = rng.choice([1, 2, 7, 33, 200, 1500])
         out.append(bytes(rng.randrange(256) for _ in range(rng.randrange(1, k + 1))))
@@ -467,6 +544,9 @@ def judge(ctx: Ctx, world: World, state: str, method: bytes, target: bytes, body
     """The property, on the observed behaviour of one non-exempt request on an unverified connection."""
     what = f"{method.decode(errors='replace')} {target.decode(errors='replace')} in state {state} ({'paired' if world.paired else 'unpaired'} accessory, {world.shape})"
     problems: List[Tuple[str, str]] = []
+    if res.get("hung"):
+        problems.append(("C03:request-not-answered", f"the call into the server did not return within {CALL_LIMIT[0]:.0f} s: the request is "
+                         "neither refused nor is the connection closed, and nothing else is served meanwhile"))
     served = [r for r in res["responses"] if 200 <= r.status < 300 and not httpc.is_pairing_auth_error(r.body)]
     if served:
         problems.append(("C03:unverified-request-served",
@@ -607,12 +687,14 @@ def run_busy(spec: Dict[str, Any]) -> Dict[str, Any]:
         u, trace = reach(world, spec["state"], conn=u)
         mark = len(u.t.out)
         windows = []
+        hung = False
         method = bytes.fromhex(spec["method"])
         for tgt, body in spec["requests"]:
             if u.t.closed:
                 break
             before = world.digest()
-            u.send(httpc.http_request(method, bytes.fromhex(tgt), bytes.fromhex(body)), method)
+            r_ = u.send(httpc.http_request(method, bytes.fromhex(tgt), bytes.fromhex(body)), method)
+            hung = hung or r_["hung"]
             after = world.digest()
             windows.append([k for k in before if before[k] != after[k]])
         _app_changes(world, 2)
@@ -622,7 +704,7 @@ def run_busy(spec: Dict[str, Any]) -> Dict[str, Any]:
         _app_changes(world, 3)
         world.advance(1.0)
         world.spin()
-        return {"tail": b"".join(u.t.out[mark:]), "windows": windows, "trace": trace, "verified_flag": bool(u.p.handler.is_encrypted),
+        return {"hung": hung or bool(world.hung), "tail": b"".join(u.t.out[mark:]), "windows": windows, "trace": trace, "verified_flag": bool(u.p.handler.is_encrypted),
                 "v1_events": b"".join(v1.t.out).count(b"EVENT/1.0")}
     finally:
         world.close()
@@ -634,6 +716,8 @@ def busy_problems(spec: Dict[str, Any], res: Dict[str, Any]) -> List[Tuple[str, 
 
     tail = res["tail"]
     problems: List[Tuple[str, str]] = []
+    if res.get("hung"):
+        problems.append(("C03:request-not-answered", "a call into the server did not return"))
     served = []
     if b"EVENT/1.0" not in tail:
         resps, _trailing = httpc.parse_responses(tail, [bytes.fromhex(spec["method"])] * 50, eof=False)
@@ -694,6 +778,8 @@ def run_busy_cases(ctx: Ctx, deep: bool):
     finally:
         probe.close()
     for spec in specs:
+        if hung_budget_exhausted():
+            break
         res = run_busy(spec)
         problems = busy_problems(spec, res)
         tag = f"busy:{spec['dims']}-snapshot-in-flight" if spec["kind"] == "busy" else f"reuse-after:{spec['cause']}"
@@ -757,8 +843,13 @@ def run_world(ctx: Ctx, world: World, cases, lines, impls, metas):
     for c in cases:
         by_key.setdefault((c[0], c[1], c[2] if c[4] == "cross" else c[2].split(b"?")[0]), []).append(c)
     for (state, method, _), group in by_key.items():
+        if hung_budget_exhausted():
+            st.notes.append("sweep stopped after two calls that did not return")
+            break
         conn, trace = reach(world, state)
         for (_, _, target, body, kind) in group:
+            if hung_budget_exhausted():
+                break
             if conn.t.closed:
                 conn, trace = reach(world, state)
             before = world.digest()
